@@ -584,6 +584,11 @@ Definition port_info (ports : list cppport) (label : str) : content :=
 
 Definition generated_by (tp : templates) : content := comment_s (L "Generated by: dznpy/adv_shell v" ++ tp_version tp).
 
+(* the quoted includes of the shell header: the Dezyne-generated header of the model and support files *)
+Definition header_project_includes (orig sf_prefix_file_ns : str) (mc : option mc_cfg) : list str :=
+  [orig ++ L ".hh"; sf_prefix_file_ns ++ L "_StrictPort.hh"] ++
+  match mc with Some _ => [sf_prefix_file_ns ++ L "_ILog.hh"; sf_prefix_file_ns ++ L "_MultiClientSelector.hh"] | None => [] end.
+
 Definition create_headerfile (tp : templates) (cfg : config) (sf_prefix_file_ns : str) (ce : cpp_elements) : gfile :=
   let pc := cf_ports cfg in
   let creator_overview := str_tb (mk1 (CList [CStr (L "Creator information:");
@@ -606,8 +611,7 @@ Definition create_headerfile (tp : templates) (cfg : config) (sf_prefix_file_ns 
         port_info (mts (ce_rp ce)) (L "Requires ports (Multi-threaded)")])) in
   let header_comments := comment (CList [cf_copyright cfg; blank_line; CStr (L "Advanced Shell"); blank_line; CStr creator_overview; blank_line;
                                          CStr cfg_overview; blank_line; CStr final_overview; CStr do_not_modify]) in
-  let project_includes := [ce_orig_basename ce ++ L ".hh"; sf_prefix_file_ns ++ L "_StrictPort.hh"] ++
-                          match pc_mc pc with Some _ => [sf_prefix_file_ns ++ L "_ILog.hh"; sf_prefix_file_ns ++ L "_MultiClientSelector.hh"] | None => [] end in
+  let project_includes := header_project_includes (ce_orig_basename ce) sf_prefix_file_ns (pc_mc pc) in
   let header := CList [header_comments; blank_line; COther (str_includes true (fa_system_includes (ce_facilities ce))) true;
                        COther (str_includes false project_includes) true; blank_line] in
   let fa := ce_facilities ce in
